@@ -133,6 +133,10 @@ func GenSpec(t *rapid.T) *Spec {
 		s.RtMinPoolExtra = uint16(rapid.SampledFrom([]int{0, 0, 1, 2}).Draw(t, "rtMinPoolExtra"))
 		s.RtValidatorSet = rapid.IntRange(0, 3).Draw(t, "rtValidatorSet") == 0
 		s.RtOwnStake = rapid.Bool().Draw(t, "rtOwnStake")
+		if rapid.IntRange(0, 2).Draw(t, "rtForeignOwner") == 0 {
+			// owned by an entity that may lose its nodes and try to deregister
+			s.RtOwner = rapid.IntRange(1, s.NEntities-1).Draw(t, "rtOwner")
+		}
 	}
 	for i := 0; i < s.NEntities; i++ {
 		var roles []int
